@@ -577,21 +577,92 @@ def render_pat(pt):
         return "*." + pt[1]
     if k == "Base":
         return pt[1]
+    if k == "Glob":
+        _, neg, lead, dironly, segs = pt
+        return ("!" if neg else "") + ("/" if lead else "") + "/".join(segs) + ("/" if dironly else "")
     raise ValueError(pt)
+
+
+def is_shape(pt):
+    return pt[0] in ("Exact", "Dir", "Ext", "Base")
+
+
+def _seg_match(seg, name):
+    """One path component against one pattern segment; `*` does not cross a slash."""
+    rx = "[^/]*".join(re.escape(x) for x in seg.split("*"))
+    return re.fullmatch(rx, name) is not None
+
+
+def _segs_match(segs, comps):
+    if not segs:
+        return not comps
+    if segs[0] == "**":
+        if len(segs) == 1:
+            return len(comps) >= 1                      # trailing /**: everything inside
+        return any(_segs_match(segs[1:], comps[i:]) for i in range(len(comps) + 1))
+    return bool(comps) and _seg_match(segs[0], comps[0]) and _segs_match(segs[1:], comps[1:])
+
+
+def pat_negated(pt):
+    return pt[0] == "Glob" and bool(pt[1])
+
+
+def direct_match(pt, comps, is_dir):
+    """Does the pattern match THIS path (a file, or a directory when is_dir), not one of its parents?
+    Independent Python reading of the gitignore rules for the shapes the generator emits."""
+    k = pt[0]
+    if k == "Exact":
+        return comps == pt[1]
+    if k == "Dir":
+        return is_dir and comps[-1] == pt[1]
+    if k == "Ext":
+        return comps[-1].endswith("." + pt[1])
+    if k == "Base":
+        return comps[-1] == pt[1]
+    if k == "Glob":
+        _, neg, lead, dironly, segs = pt
+        if dironly and not is_dir:
+            return False
+        if not lead and len(segs) == 1:
+            return _seg_match(segs[0], comps[-1])       # no slash: matches at any depth
+        return _segs_match(segs, comps)
+    raise ValueError(pt)
+
+
+def _decide(pats, comps, is_dir):
+    res = False
+    for pt in pats:
+        if direct_match(pt, comps, is_dir):
+            res = not pat_negated(pt)
+    return res
+
+
+def ignored_git(pats, rel):
+    """git's rule: a file below an excluded directory is ignored (it cannot be re-included);
+    otherwise the last pattern matching the file itself decides."""
+    for i in range(1, len(rel)):
+        if _decide(pats, rel[:i], True):
+            return True
+    return _decide(pats, rel, False)
+
+
+def ignored_lastmatch(pats, rel):
+    """the simple reading: the last pattern matching the file or any of its parents decides"""
+    res = False
+    for pt in pats:
+        if direct_match(pt, rel, False) or any(direct_match(pt, rel[:i], True) for i in range(1, len(rel))):
+            res = not pat_negated(pt)
+    return res
+
+
+def readings_agree(pats, rels):
+    """The two readings coincide on these paths: the list is outside C09's known classes
+    (re-inclusion below an excluded directory), where pathspec and git differ."""
+    return all(ignored_git(pats, r) == ignored_lastmatch(pats, r) for r in rels)
 
 
 def pat_matches(pt, rel):
-    """Independent Python reading of the four gitignore shapes used (no negation)."""
-    k = pt[0]
-    if k == "Exact":
-        return rel[:len(pt[1])] == pt[1]
-    if k == "Dir":
-        return pt[1] in rel[:-1]
-    if k == "Ext":
-        return rel[-1].endswith("." + pt[1])
-    if k == "Base":
-        return pt[1] in rel
-    raise ValueError(pt)
+    return direct_match(pt, rel, False) or any(direct_match(pt, rel[:i], True) for i in range(1, len(rel)))
 
 
 def member_py(root_prefix, pats):
@@ -600,8 +671,7 @@ def member_py(root_prefix, pats):
     def m(p):
         if p[:len(root_prefix)] != root_prefix or len(p) <= len(root_prefix):
             return False
-        rel = p[len(root_prefix):]
-        return not any(pat_matches(pt, rel) for pt in pats)
+        return not ignored_git(pats, p[len(root_prefix):])
     return m
 
 
